@@ -21,6 +21,7 @@ import DfolsVerif.Gen.KernelFns
 import DfolsVerif.Spec.RadiusSrc
 import DfolsVerif.Accept.IterAcc
 import DfolsVerif.Accept.DiagAcc
+import DfolsVerif.Proofs.DiagTable
 
 namespace Dfols
 namespace C18
@@ -326,6 +327,36 @@ example : (reduceRho realRadOps badParams 300 1).2 < 1 := by
 
 /-- non-vacuity of `C18_radii`: defaults -/
 example : (1 : ℝ) / 250 ≤ (1 : ℝ) / 10 ∧ (1 : ℝ) / 10 ≤ 1 := by norm_num
+
+/-! ### the diagnostic table as a state machine (source facts generated from diagnostic_info.py / solver.py on every run) -/
+
+/-- **what the source does to the table**: `save_info_from_control` appends exactly once, on every path through it, to
+    every column `__init__` creates and to no other (and `iters_total` gets its old length); every other method only assigns
+    the last element of such a column; every call is in the main loop of `solve_main` (not in an inner loop) under
+    `params('logging.save_diagnostic_info')`, the save call first in source order as the first statement of a top-level
+    `if` of the loop body with exactly that test; no other function of solver.py / controller.py calls these methods. -/
+theorem C18_src_diag_sites :
+    (Gen.diagSaveAppends.map (·.1) = Gen.diagInitKeys ∧ (∀ c ∈ Gen.diagSaveAppends, c.2.1 = 1 ∧ c.2.2 = 1) ∧
+      Gen.diagInitKeys.Nodup ∧ Gen.diagItersTotalExpr = "len(self.data['iters_total'])") ∧
+    (∀ o ∈ Gen.diagMethodOps,
+      (o.1 = "save_info_from_control" ∧ (o.2.2 = "append" ∨ (o.2.2 = "len" ∧ o.2.1 = "iters_total"))) ∨
+      (o.1 ≠ "save_info_from_control" ∧ o.2.2 = "set-last" ∧ o.2.1 ∈ Gen.diagInitKeys)) ∧
+    ((∀ c ∈ Gen.diagCalls, c.inMainLoop = true ∧ c.innerLoops = 0 ∧ DiagTable.loggingLit ∈ c.path) ∧
+      (∀ c ∈ Gen.diagCalls, c.method = "save_info_from_control" ↔ c.rank = 0) ∧
+      (∃ c ∈ Gen.diagCalls, c.rank = 0 ∧ c.path = [⟨true, "True", "", ""⟩, DiagTable.loggingLit]) ∧
+      Gen.diagSaveGuard = "params('logging.save_diagnostic_info')" ∧ Gen.diagCallsElsewhere = []) :=
+  ⟨DiagTable.save_appends_once, DiagTable.other_methods_set_last, DiagTable.calls_shape⟩
+
+/-- **the table is rectangular, no update fails, `iters_total` counts the rows** — for EVERY sequence of
+    `DiagnosticInfo` method calls in which each update is preceded by a save (what `C18_src_diag_sites` gives: within an
+    iteration the save comes first, rows are never removed) and names a column of `__init__`: the model runs through
+    (no `IndexError` from `[-1]` on an empty column), every column has as many entries as there were saves — so
+    `pd.DataFrame(data)` gets arrays of one length — on exactly the generated columns, and `iters_total` = 0, …, rows − 1. -/
+theorem C18_diag_rectangular (ops : List DiagTable.Op) (hsf : DiagTable.savedFirst false ops = true)
+    (hk : ∀ k, DiagTable.Op.update k ∈ ops → k ∈ Gen.diagInitKeys) :
+    ∃ s', DiagTable.run (DiagTable.init Gen.diagInitKeys) ops = some s' ∧ (∀ kv ∈ s'.cols, kv.2 = DiagTable.saves ops) ∧
+      s'.cols.map (·.1) = Gen.diagInitKeys ∧ s'.its = List.range (DiagTable.saves ops) :=
+  DiagTable.run_from_init Gen.diagInitKeys ops hsf hk
 
 end C18
 end Dfols
